@@ -40,7 +40,10 @@ func cwRace(in json.RawMessage, res *vh.Result) error {
 		cwUnitWitness(ri.Witness, res)
 	}
 	cwCfgChangeProbe(res)
-	cwHeadOrphanProbe(res)
+	cwClosedWriterCheck(res)
+	if err := cwResubInflightProbe(res); err != nil {
+		res.Extra["resub_inflight_probe"] = map[string]any{"error": err.Error()}
+	}
 	if err := cwBatchingOffProbe(res); err != nil {
 		res.Extra["batching_off_probe"] = map[string]any{"error": err.Error()}
 	}
@@ -439,12 +442,12 @@ func cwClientResub(variant string, round int, res *vh.Result) error {
 	return nil
 }
 
-// cwHeadOrphanProbe (evidence, spec/ChanWriter orphan_witness.cfg): perChannelWriter.Add is getWriter followed by
-// w.Add. A broadcast that fetched the writer just before unsubscribe's first delWriter adds to a writer that is already
-// closed and deleted from the map; the second delWriter (after removeSubscription) looks in the map and cannot reach it;
-// its MaxDelay timer flushes after the unsubscribe. Stepped through the real perChannelWriter with the two halves of
-// Add taken separately (there is no natural gate between the two statements at client level).
-func cwHeadOrphanProbe(res *vh.Result) {
+// cwClosedWriterCheck (spec/ChanWriter orphan_witness.cfg is the unrepaired variant): perChannelWriter.Add is getWriter
+// followed by w.Add. A broadcast that fetched the writer just before unsubscribe's first delWriter must not leave its
+// item in the closed writer the map no longer reaches: neither delWriter could drop it and its MaxDelay timer would flush
+// it after the unsubscribe. Stepped through the REAL perChannelWriter with the two halves of Add taken separately (shim):
+// nothing may be flushed after both delWriter calls.
+func cwClosedWriterCheck(res *vh.Result) {
 	const d = 20 * time.Millisecond
 	rec := newCwRec()
 	pcw := centrifuge.VerifMNewPCW(rec.flush)
@@ -453,18 +456,24 @@ func cwHeadOrphanProbe(res *vh.Result) {
 	pcw.Add(cwQueueItem(cwItem{ID: 1, K: "pub"}), cwChannel, bc) // the channel has a writer
 	rec.waitNew(d + 2*time.Second)
 	rec.take()
-	w := pcw.GetWriter(cwChannel)                        // broadcast: getWriter
-	pcw.DelWriter(cwChannel, false)                      // unsubscribe, site 1 (under c.mu)
-	w.Add(cwQueueItem(cwItem{ID: 2, K: "pub"}), bc)      // broadcast: w.Add on the closed, deleted writer
-	pcw.DelWriter(cwChannel, false)                      // unsubscribe, site 2 (after removeSubscription)
+	w := pcw.GetWriter(cwChannel)                   // broadcast: getWriter
+	pcw.DelWriter(cwChannel, false)                 // unsubscribe, site 1 (under c.mu)
+	w.Add(cwQueueItem(cwItem{ID: 2, K: "pub"}), bc) // broadcast: w.Add on the closed, deleted writer
+	pcw.DelWriter(cwChannel, false)                 // unsubscribe, site 2 (after removeSubscription)
 	st := pcw.State(cwChannel)
-	got := rec.waitNew(d + 2*time.Second)
-	res.Extra["head_orphan_probe"] = map[string]any{
-		"schedule":                     "Add(#1); timer flush; w := getWriter(ch); delWriter(ch,false); w.Add(#2); delWriter(ch,false); wait MaxDelay",
-		"writer_in_map_after_removal":  st.Exists,
-		"flushed_after_both_delWriter": batchIDs(rec.take()),
-		"push_delivered_after_removal": got,
+	got := rec.waitNew(10*d + 200*time.Millisecond)
+	late := batchIDs(rec.take())
+	schedule := "Add(#1); timer flush; w := getWriter(ch); delWriter(ch,false); w.Add(#2); delWriter(ch,false); wait MaxDelay"
+	res.Extra["closed_writer_check"] = map[string]any{"schedule": schedule, "writer_in_map_after_removal": st.Exists, "flushed_after_both_delWriter": late}
+	if got {
+		res.Violate("C13", "cw:add-into-closed-writer:orphan-flush",
+			fmt.Sprintf("a push added to a channelWriter that delWriter had already closed and removed was flushed %v after both delWriter(ch,false) calls returned (no writer in the map: %v); schedule: %s", late, !st.Exists, schedule),
+			map[string]any{"schedule": schedule, "flushed": late})
+		res.Done(1, 0)
+		return
 	}
+	res.Distinct("closed-writer")
+	res.Done(1, 1)
 }
 
 // cwBatchingOffProbe (evidence, outside the property's quantifier; spec/ChanWriter cfgswitch_direct_witness.cfg):
@@ -671,5 +680,107 @@ func cwClientLeaveOrder(mode string, round int, res *vh.Result) error {
 	}
 	res.Sample(replay)
 	res.Done(1, 1)
+	return nil
+}
+
+// cwResubInflightProbe (evidence; spec/ChanWriter resub_inflight_witness.cfg): the window the repaired unsubscribe still
+// leaves. A broadcast passed the subscribed check (parked in the LogHandler); a server-side Unsubscribe deletes
+// c.channels[ch], drops the channel writer and is parked at Broker.PublishLeave; the broadcast is released: its Add
+// re-creates the writer and buffers the push; the client subscribes again; the unsubscribe is released: its second
+// delWriter is skipped because the channel is subscribed again; MaxDelay later the old push is flushed into the new
+// subscription.
+func cwResubInflightProbe(res *vh.Result) error {
+	const d = 300 * time.Millisecond
+	ch := fmt.Sprintf("resubfl_%d", vh.Seed())
+	var logArmed, leaveArmed atomic.Bool
+	logGate, leaveGate := cl.NewGate(), cl.NewGate()
+	env, err := cl.NewEnv(centrifuge.Config{
+		LogLevel: centrifuge.LogLevelTrace,
+		LogHandler: func(e centrifuge.LogEntry) {
+			if e.Level != centrifuge.LogLevelTrace || e.Message != "-out->" || !logArmed.Load() {
+				return
+			}
+			if p, ok := e.Fields["push"].(string); ok && strings.Contains(p, ch) && strings.Contains(p, `"pub"`) && logArmed.CompareAndSwap(true, false) {
+				logGate.Arrive(8 * time.Second)
+			}
+		},
+		GetChannelBatchConfig: func(string) centrifuge.ChannelBatchConfig { return centrifuge.ChannelBatchConfig{MaxDelay: d} },
+	})
+	if err != nil {
+		return err
+	}
+	gb, err := cl.NewGateBroker(env.Node)
+	if err != nil {
+		return err
+	}
+	gb.OnPublishLeave = func(c string, _ *centrifuge.ClientInfo) {
+		if c == ch && leaveArmed.CompareAndSwap(true, false) {
+			leaveGate.Arrive(8 * time.Second)
+		}
+	}
+	env.Node.SetBroker(gb)
+	env.OnSubscribe = func(_ *centrifuge.Client, _ centrifuge.SubscribeEvent, cb centrifuge.SubscribeCallback) {
+		cb(centrifuge.SubscribeReply{Options: centrifuge.SubscribeOptions{EmitJoinLeave: true}}, nil)
+	}
+	if err := env.Run(); err != nil {
+		return err
+	}
+	defer env.Close()
+	conn, err := env.NewConn("u", centrifuge.ProtocolTypeJSON)
+	if err != nil {
+		return err
+	}
+	defer func() { logGate.Release(); leaveGate.Release(); conn.Client.Disconnect(); conn.Cancel() }()
+	if conn.Connect() == nil {
+		return fmt.Errorf("connect failed")
+	}
+	subscribe := func() (uint32, error) {
+		id := conn.NextID()
+		conn.Do(&protocol.Command{Id: id, Subscribe: &protocol.SubscribeRequest{Channel: ch}})
+		if r := conn.WaitReply(id, 3*time.Second); r == nil || r.Subscribe == nil {
+			return id, fmt.Errorf("subscribe failed")
+		}
+		return id, nil
+	}
+	if _, err := subscribe(); err != nil {
+		return err
+	}
+	logArmed.Store(true)
+	pubDone := make(chan struct{})
+	go func() { defer close(pubDone); _, _ = env.Node.Publish(ch, []byte(`{"n":1}`)) }()
+	if !logGate.WaitArrived(3 * time.Second) {
+		return fmt.Errorf("broadcast did not reach the trace log entry")
+	}
+	leaveArmed.Store(true)
+	unsubDone := make(chan struct{})
+	go func() { defer close(unsubDone); conn.Client.Unsubscribe(ch) }()
+	if !leaveGate.WaitArrived(3 * time.Second) {
+		return fmt.Errorf("unsubscribe did not reach Broker.PublishLeave")
+	}
+	logGate.Release()
+	<-pubDone
+	sub2, err := subscribe()
+	if err != nil {
+		return err
+	}
+	leaveGate.Release()
+	<-unsubDone
+	time.Sleep(d + 150*time.Millisecond)
+	conn.Barrier(2 * time.Second)
+	frames := conn.Frames()
+	reply2, old := -1, -1
+	for i, r := range frames {
+		if r.Id == sub2 && r.Subscribe != nil {
+			reply2 = i
+		}
+		if r.Push != nil && r.Push.Channel == ch && r.Push.Pub != nil && strings.Contains(string(r.Push.Pub.Data), `"n":1`) {
+			old = i
+		}
+	}
+	res.Extra["resub_inflight_probe"] = map[string]any{
+		"schedule": "subscribe (generation 1); broadcast of publication 1 passes the subscribed check, parked in LogHandler; server-side Unsubscribe: c.channels[ch] deleted + delWriter, parked at Broker.PublishLeave; broadcast released: Add re-creates the writer, buffers 1 (MaxDelay 300 ms); client subscribes again (reply 2); Unsubscribe released: second delWriter skipped (resubscribed); timer flush",
+		"frames":   cl.DescribeAll(frames),
+		"old_publication_delivered_after_second_subscribe_reply": reply2 >= 0 && old > reply2,
+	}
 	return nil
 }
